@@ -10,6 +10,7 @@
 From HclV Require Import Base.Prelude.
 From stdpp Require Import functions gmap list.
 From HclV Require Import Conc.AnonSym Conc.AnonSymCheck Gen.AnonOps.
+From Coq Require String.
 
 Section anon.
 Context {V : Type} (dyn : V).
@@ -579,3 +580,120 @@ Proof.
          [SplatKnown 1%positive [(10%Z, 1%nat); (11%Z, 1%nat)] None].
   split; [reflexivity|]. split; [reflexivity|]. vm_compute. discriminate.
 Qed.
+
+(* ---- the generated table of writes into memory that may be shared --------------
+   Gen/AnonOps.v (second table, tools/gentables/gen_sharedwrites.go) lists every
+   write into memory the writing function did not allocate itself - fields
+   reached through pointers, elements of maps and slices, package variables,
+   appends into slices it does not own - in all code of the packages hcl,
+   hclsyntax, json, ext/dynblock, hcldec that is reachable from the exported API
+   WITHOUT entering the tree-building entry points (functions named Parse.., Lex.., Scan.., New..).
+
+   The isolation theorems above are about AnonSymbolExpr.values being the only
+   mutable state a parsed tree shares between concurrent users.  A lazily
+   filled cache on a tree node (memoised flattening, a map built on first use,
+   once-initialisation without sync) is new shared state; it shows up in the
+   regenerated table as a new entry, and the lemma below stops compiling -
+   deterministically, whatever the scheduler does in the harness runs.
+
+   expected_shared_writes is the AUDITED list for the pinned tree; each group
+   carries the reason why it is not shared state of a parsed tree.  When the
+   table changes, audit the new entry before extending the list. *)
+Module SharedWrites.
+Import Coq.Strings.String.
+Local Open Scope string_scope.
+Local Open Scope bool_scope.
+
+Definition expected_shared_writes : list (string * string * string) :=
+  [
+   (* appends to the diagnostics slice the wrapped body returned (result of an interface call: not provably the callee's own) *)
+   ("dynblock.(*expandBody).Content", "append", "local diags hcl.Diagnostics");
+   ("dynblock.(*expandBody).PartialContent", "append", "local diags hcl.Diagnostics");
+   (* an ExpandOption applied by dynblock.Expand to the expandBody it has just allocated (parameter of the helper) *)
+   ("dynblock.optCheckForEach.applyExpandOption", "append", "field dynblock.expandBody.checkForEach");
+   ("dynblock.optCheckForEach.applyExpandOption", "assign", "field dynblock.expandBody.checkForEach");
+   (* diagnostics slices returned by callees *)
+   ("hcl.ApplyPath", "append", "local diags hcl.Diagnostics");
+   (* Diagnostics.Append / Extend append to the receiver: the documented use is diags = diags.Append(..) on the caller's own slice *)
+   ("hcl.Diagnostics.Append", "append", "parameter d hcl.Diagnostics");
+   ("hcl.Diagnostics.Extend", "append", "parameter d hcl.Diagnostics");
+   (* diagnostics slices returned by the merged bodies (interface calls) *)
+   ("hcl.mergedBodies.JustAttributes", "append", "local diags hcl.Diagnostics");
+   ("hcl.mergedBodies.mergedContent", "append", "local diags hcl.Diagnostics");
+   (* hcldec: diagnostics returned by callees; NOTE blockHeaderSchemata appends to the LabelNames slice OF THE SPEC (shared when one spec decodes on several goroutines; writes only when a nested BlockLabelSpec exists and the slice has spare capacity) - reported to the maintainer of this check as an observation outside the statement of C17 (specs are not parsed configuration) *)
+   ("hcldec.(*AttrSpec).decode", "append", "local diags hcl.Diagnostics");
+   ("hcldec.(*BlockMapSpec).blockHeaderSchemata", "append", "field hcldec.BlockMapSpec.LabelNames");
+   ("hcldec.(*BlockMapSpec).decode", "assign", "element of local targetMap map[string]interface{}");
+   ("hcldec.(*BlockObjectSpec).blockHeaderSchemata", "append", "field hcldec.BlockObjectSpec.LabelNames");
+   ("hcldec.(*BlockObjectSpec).decode", "assign", "element of local targetMap map[string]interface{}");
+   ("hcldec.(*DefaultSpec).decode", "append", "local diags hcl.Diagnostics");
+   ("hcldec.(*TransformExprSpec).decode", "append", "local diags hcl.Diagnostics");
+   ("hcldec.(*TransformFuncSpec).decode", "append", "local diags hcl.Diagnostics");
+   ("hcldec.(*ValidateSpec).decode", "append", "local diags hcl.Diagnostics");
+   ("hcldec.(*ValidateSpec).decode", "assign", "field hcl.Diagnostic.Subject");
+   ("hcldec.decode", "append", "local diags hcl.Diagnostics");
+   (* THE shared mutable state of a parsed tree: AnonSymbolExpr.values, every access under valuesLock (ops_guarded above); the model of Conc/AnonSym.v *)
+   ("hclsyntax.(*AnonSymbolExpr).clearValue", "delete", "field hclsyntax.AnonSymbolExpr.values");
+   ("hclsyntax.(*AnonSymbolExpr).setValue", "assign", "element of field hclsyntax.AnonSymbolExpr.values");
+   ("hclsyntax.(*AnonSymbolExpr).setValue", "assign", "field hclsyntax.AnonSymbolExpr.values");
+   (* element of the conversion slice returned by convert.UnifyUnsafe (outside the packages, allocated per call) *)
+   ("hclsyntax.(*ConditionalExpr).Value", "assign", "element of local convs []convert.Conversion");
+   (* diagnostics slices returned by callees (interface calls) *)
+   ("hclsyntax.(*RelativeTraversalExpr).Value", "append", "local diags hcl.Diagnostics");
+   ("hclsyntax.(*SplatExpr).Value", "append", "local diags hcl.Diagnostics");
+   ("hclsyntax.(*TemplateJoinExpr).Value", "append", "local diags hcl.Diagnostics");
+   ("hclsyntax.(*UnaryOpExpr).Value", "append", "local diags hcl.Diagnostics");
+   (* the walker object Variables() allocates per call (receiver of the Walker callbacks) *)
+   ("hclsyntax.(*variablesWalker).Enter", "append", "field hclsyntax.variablesWalker.localScopes");
+   ("hclsyntax.(*variablesWalker).Enter", "assign", "field hclsyntax.variablesWalker.localScopes");
+   ("hclsyntax.(*variablesWalker).Exit", "assign", "field hclsyntax.variablesWalker.localScopes");
+   (* diagnostics slices returned by the caller's callbacks *)
+   ("hclsyntax.VisitAll", "append", "local diags hcl.Diagnostics");
+   ("hclsyntax.Walk", "append", "local diags hcl.Diagnostics");
+   (* annotates the diagnostics produced by the evaluation in progress (slice handed in by the caller, elements allocated by that evaluation) *)
+   ("hclsyntax.setDiagEvalContext", "assign", "field hcl.Diagnostic.EvalContext");
+   ("hclsyntax.setDiagEvalContext", "assign", "field hcl.Diagnostic.Expression");
+   (* json.unpackBlock: the recursion appends to its label slices and to the caller's block list ( *blocks); the label slices are copied before they are stored in a Block (see the comment in the code) *)
+   ("json.(*body).unpackBlock", "append", "local diags hcl.Diagnostics");
+   ("json.(*body).unpackBlock", "append", "parameter labelRanges []hcl.Range");
+   ("json.(*body).unpackBlock", "append", "parameter labelsUsed []string");
+   ("json.(*body).unpackBlock", "append", "target of parameter blocks hcl.Blocks");
+   ("json.(*body).unpackBlock", "assign", "element of local labelRanges []hcl.Range");
+   ("json.(*body).unpackBlock", "assign", "element of local labelsUsed []string");
+   ("json.(*body).unpackBlock", "assign", "target of parameter blocks hcl.Blocks")
+  ].
+
+Lemma shared_writes_expected : shared_writes = expected_shared_writes.
+Proof. vm_compute. reflexivity. Qed.
+
+(* Readable consequence: the only fields of TREE types (packages hclsyntax and
+   json: syntax nodes, JSON value nodes, bodies) written by code a user of a
+   parsed configuration can reach are AnonSymbolExpr.values (under valuesLock,
+   ops_guarded) and the scope stack of the walker object that Variables()
+   allocates for each call. *)
+Definition tree_field (what : string) : bool :=
+  let p s := String.prefix s what in
+  p "field hclsyntax." || p "element of field hclsyntax." || p "slice of field hclsyntax."
+  || p "field json." || p "element of field json." || p "slice of field json.".
+
+Definition allowed_tree_write (what : string) : bool :=
+  String.eqb what "field hclsyntax.AnonSymbolExpr.values"
+  || String.eqb what "element of field hclsyntax.AnonSymbolExpr.values"
+  || String.eqb what "field hclsyntax.variablesWalker.localScopes".
+
+Lemma tree_fields_written :
+  forallb (fun e => implb (tree_field (snd e)) (allowed_tree_write (snd e))) shared_writes = true.
+Proof. vm_compute. reflexivity. Qed.
+
+(* the analysis ran (an analysis failure is reported as a table entry) and found
+   the known shared state *)
+Definition is_anon_values_element (what : string) : bool :=
+  String.eqb what "element of field hclsyntax.AnonSymbolExpr.values".
+Definition is_analysis_error (kind : string) : bool := String.eqb kind "error".
+
+Lemma shared_writes_sane :
+  existsb (fun e => is_anon_values_element (snd e)) shared_writes = true
+  /\ existsb (fun e => is_analysis_error (snd (fst e))) shared_writes = false.
+Proof. vm_compute. split; reflexivity. Qed.
+
+End SharedWrites.
